@@ -21,6 +21,7 @@ from .rules import r3 as R3
 from .rules import c09 as C9
 from .rules import r4 as R4
 from .rules import r5 as R5
+from .rules import r6 as R6
 
 TRUST = ('trusted: the CPython parser (ast), the callee resolver of sa/model.py (receiver roles, '
          'unique method names), Python list/str/re semantics as encoded in the rules; ')
@@ -67,7 +68,7 @@ prop('C02',
      'DESIGN.md 3.1, 4 C02')
 
 prop('C03',
-     [MI.dt1, MI.ex2, MI.df1, PD.pd5, ST.ls2p, ST.at1, ST.ex1, RG.rg1, RG.rg2, R2.at2, SC.sc5, R3.rs1, R4.exw, R4.um1, R4.nm1, R4.st1, R4.sig1, R4.df2, R4.sbl1, R5.ex1c, SC.pd6, R5.em7],
+     [MI.dt1, MI.ex2, MI.df1, PD.pd5, ST.ls2p, ST.at1, ST.ex1, RG.rg1, RG.rg2, R2.at2, SC.sc5, R3.rs1, R4.exw, R4.um1, R4.nm1, R4.st1, R4.sig1, R4.df2, R4.sbl1, R5.ex1c, SC.pd6, R5.em7, R6.sk1],
      'no markup class reaches the default emit and comments are dropped (DT1); an argument '
      'handed back for expansion is not expanded a second time by its handler (EX2: no '
      'duplicated footnotes); text of definition files never reaches the output, including '
@@ -81,7 +82,7 @@ prop('C03',
      'DESIGN.md 3.8 (DT1, EX1), 3.4 (DF1), 4 C03')
 
 prop('C04',
-     [PD.pd1, PD.pd2, PD.pd3, PD.pd5, PD.pd8, MI.pd0, ST.pd7, AB.ab1, AB.ab3, R4.pd9, C9.sb1, OK.ok2, R3.rs1, R5.pd10],
+     [PD.pd1, PD.pd2, PD.pd3, PD.pd5, PD.pd8, MI.pd0, ST.pd7, AB.ab1, AB.ab3, R4.pd9, C9.sb1, OK.ok2, R3.rs1, R5.pd10, PD.pd4, MI.df1],
      'every generated token is pinned (PD1), re-stamped tokens are pinned (PD2), and bodies, '
      'defaults, glossary and cleveref replacements are copied before they are stamped (PD5)',
      'decides that generated text cannot spread or be re-mapped by a later use; not decided: '
@@ -107,7 +108,7 @@ prop('C05',
      'DESIGN.md 3.8 (AC1, AC2), 4 C05')
 
 prop('C06',
-     [T.sp1, T.sp2, T.sp3, T.ix4, MI.pd0, SC.sp4, SC.pd6, R3.ix15, R3.ac3, PD.pd1, PD.pd5, R3.sc7, R4.nl1, ST.ls2p, R3.rs1, R5.dt1c, R5.tx3],
+     [T.sp1, T.sp2, T.sp3, T.ix4, MI.pd0, SC.sp4, SC.pd6, R3.ix15, R3.ac3, PD.pd1, PD.pd5, R3.sc7, R4.nl1, ST.ls2p, R3.rs1, R5.dt1c, R5.tx3, LS.ls1],
      'static table and dispatch rules: the special-sequence table equals the documented one '
      'and contains nothing else that plain prose could hit (SP1), values are never longer '
      'than keys (SP3), longest match (SP2), tables well-formed (IX4)',
@@ -122,7 +123,7 @@ prop('C06',
      'DESIGN.md 3.8 (SP1-SP3), 3.6 (IX4), 4 C06')
 
 prop('C07',
-     [SC.pd6, T.ix4, ST.at1, RG.ix1, RG.ix2a, MO.ix2s, MO.ix6, MO.ix7, MO.ix8, MO.ix9, MO.ix10, MO.pg1, MI.tx1, R3.sp5, R3.ix11, R3.ix12, R3.ix13, R3.ix15, R4.ix16, MO.ml2, ST.ex1, R5.ix17],
+     [SC.pd6, T.ix4, ST.at1, RG.ix1, RG.ix2a, MO.ix2s, MO.ix6, MO.ix7, MO.ix8, MO.ix9, MO.ix10, MO.pg1, MI.tx1, R3.sp5, R3.ix11, R3.ix12, R3.ix13, R3.ix15, R4.ix16, MO.ml2, ST.ex1, R5.ix17, R6.und1],
      'progress of the scanner on every path (PD6: the scan position strictly increases, with '
      'bounds of next()/find() results), well-formed tables (IX4)',
      'decides termination of the scanner and table well-formedness; further index-safety rules '
@@ -133,7 +134,7 @@ prop('C07',
      'DESIGN.md 3.6, 4 C07')
 
 prop('C08',
-     [EM.em1, EM.em2, EM.em3, R2.em4, AB.ab1, OK.ok1, SC.sc5, R3.rs1, R4.em5, MI.dt1, R4.em6, R4.st1, MI.ex2, R5.pair1, R5.em7, R5.em8],
+     [EM.em1, EM.em2, EM.em3, R2.em4, AB.ab1, OK.ok1, SC.sc5, R3.rs1, R4.em5, MI.dt1, R4.em6, R4.st1, MI.ex2, R5.pair1, R5.em7, R5.em8, R6.sk1, PS.ps1],
      'the mark is used whole (EM1), is produced only together with a diagnostic (EM2), and '
      'recovery pushes the consumed tokens back (EM3)',
      'decides the structural clauses "complete mark", "never a mark without diagnostic", '
@@ -145,7 +146,7 @@ prop('C08',
      'DESIGN.md 3.7, 4 C08')
 
 prop('C09',
-     [C9.sb1, C9.sb2, C9.sb3, C9.sb4, C9.sb5, ST.pd7, PD.pd5, MI.df1, MO.ix6, R3.ix12, MI.uk, R3.rs1, R4.sc8, R4.sb2b, ST.at1, R2.at2, R4.um1, R4.en1, R4.exw, R4.st1, R4.sbl1, PS.ps1, R4.sh1],
+     [C9.sb1, C9.sb2, C9.sb3, C9.sb4, C9.sb5, ST.pd7, PD.pd5, MI.df1, MO.ix6, R3.ix12, MI.uk, R3.rs1, R4.sc8, R4.sb2b, ST.at1, R2.at2, R4.um1, R4.en1, R4.exw, R4.st1, R4.sbl1, PS.ps1, R4.sh1, R6.memo1, R6.lp1],
      'structural clauses only: the substitution loop replaces #k by the complete k-th argument and '
      'copies every other body token once, in order (SB1); one argument per code, defaults at the '
      'index of the code (SB2); \\newcommand / \\def register unconditionally under the literal name '
@@ -167,7 +168,7 @@ prop('C09',
      'DESIGN.md 3.8, 4 C09')
 
 prop('C10',
-     [MT.mt1, MT.mt2, MT.mt5, R2.mt6, R2.mt7, R2.mt8, MI.ex2, MI.lc1, PS.ps3, T.mt4, PD.pd1, R3.ix14, MO.ml2, R3.tk1, PD.pd5, R4.sh1, R4.nm1, MI.dt1, ST.ex1, R5.mt4b],
+     [MT.mt1, MT.mt2, MT.mt5, R2.mt6, R2.mt7, R2.mt8, MI.ex2, MI.lc1, PS.ps3, T.mt4, PD.pd1, R3.ix14, MO.ml2, R3.tk1, PD.pd5, R4.sh1, R4.nm1, MI.dt1, ST.ex1, R5.mt4b, MI.ml6, R4.lt2],
      'rotation state: an argument is expanded once (EX2: formulas inside handler arguments '
      'consume one placeholder), collections are per language and looked up at the time of use '
      '(LC1), punctuation entries are single characters (MT4), generated tokens pinned (PD1)',
@@ -199,7 +200,7 @@ prop('C11',
      'DESIGN.md 3.8 (MT1-MT5), 4 C11')
 
 prop('C12',
-     [LS.ls1_ml, MO.ml2, R2.ml4, R2.lc2, MI.ml6, MI.lc1, ST.ex1, OK.ok4, R2.okv, R3.ml7, R3.ml8, R4.acc1, R4.sh1, R4.lt1, R4.lt2, LS.ls1_shell, OK.ok2, R5.sbl2, R5.lc4],
+     [LS.ls1_ml, MO.ml2, R2.ml4, R2.lc2, MI.ml6, MI.lc1, ST.ex1, OK.ok4, R2.okv, R3.ml7, R3.ml8, R4.acc1, R4.sh1, R4.lt1, R4.lt2, LS.ls1_shell, OK.ok2, R5.sbl2, R5.lc4, R6.ml10],
      'text and map of every language section stay in lock step through sectioning, joining '
      'and placeholder insertion (LS1m)',
      'decides only the lock-step clause of C12 so far',
@@ -218,7 +219,7 @@ prop('C13',
      'DESIGN.md 3.2, 4 C13')
 
 prop('C14',
-     [OK.ok1, OK.ok2, OK.ok4, R2.th3, R2.okv, LS.ls1_shell, AB.ab2, MI.oks, PS.ps1, R3.ok6, R3.ml7, R3.ix13, R2.cm2, R4.ml9, R5.tx2, MO.ln1, MO.ml2, AB.ab3, LS.ls1],
+     [OK.ok1, OK.ok2, OK.ok4, R2.th3, R2.okv, LS.ls1_shell, AB.ab2, MI.oks, PS.ps1, R3.ok6, R3.ml7, R3.ix13, R2.cm2, R4.ml9, R5.tx2, MO.ln1, MO.ml2, AB.ab3, LS.ls1, R2.ml4, R5.un1],
      'the chain part offset -> total offset -> LaTeX offset -> line / column: every match of a '
      'part is shifted once by the text accumulated before it (OK2), the accumulated text and map '
      'stay in lock step incl. delimiter padding (LS1s), map entries are read through abs() and '
@@ -234,7 +235,7 @@ prop('C14',
      'DESIGN.md 3.2, 4 C14')
 
 prop('C15',
-     [TJ.tj1, TJ.tj2, TJ.tj3, AB.ab2, MI.oks, R2.okv, R3.ix13, R4.tj4, R4.tj5, R4.th8, OK.ok1, R4.en2, R5.tj6, R5.tj7, R3.rx5],
+     [TJ.tj1, TJ.tj2, TJ.tj3, AB.ab2, MI.oks, R2.okv, R3.ix13, R4.tj4, R4.tj5, R4.th8, OK.ok1, R4.en2, R5.tj6, R5.tj7, R3.rx5, R6.und1, TH.th10],
      'every access to answer data is type-checked through json_get or validated at source '
      '(TJ1, interprocedural taint from JSONDecoder.decode through parameters, callbacks, '
      'tuples and attributes), decoding is guarded (TJ2), the error path is one diagnostic and '
@@ -248,7 +249,7 @@ prop('C15',
      'DESIGN.md 3.4, 3.2 (AB2), 4 C15')
 
 prop('C16',
-     [TH.th1, TH.th2, R2.th3, R2.th4, R2.cm2, MO.ln1, R3.rx5, R3.ix13, R3.cm3, R3.th6, R4.th8, OK.ok2, R4.ps6, R4.th7, R5.tx2, R5.th9],
+     [TH.th1, TH.th2, R2.th3, R2.th4, R2.cm2, MO.ln1, R3.rx5, R3.ix13, R3.cm3, R3.th6, R4.th8, OK.ok2, R4.ps6, R4.th7, R5.tx2, R5.th9, R6.und1],
      'escaping exactly once for all sources the property names, by a three-valued taint '
      '(raw / escaped-or-markup / mixed) through concatenations, helper functions, re.sub '
      'callbacks and result tuples; protect_html checked as a table (TH1); each match '
@@ -280,7 +281,7 @@ prop('C18',
      'DESIGN.md 3.8 (EX1, WL1), 4 C18')
 
 prop('C19',
-     [MI.uk, R2.uk5, SC.sc5, PS.ps1, R3.sp5, R3.mc1, R3.rs1, R4.um1, R4.sh1, R4.exw, R4.acc1, R4.st1, R5.uk7],
+     [MI.uk, R2.uk5, SC.sc5, PS.ps1, R3.sp5, R3.mc1, R3.rs1, R4.um1, R4.sh1, R4.exw, R4.acc1, R4.st1, R5.uk7, R6.memo1, R6.lp1, R6.cl1, R6.sk1, R3.sc7, R3.cm3],
      'recorded only when undeclared at the time of use, only in text mode, once, reset per '
      'document, printed one per line (UK); what is declared does not depend on earlier calls '
      '(PS1)',
@@ -292,7 +293,7 @@ prop('C19',
      'DESIGN.md 3.8 (UK1-UK4), 4 C19')
 
 prop('C20',
-     [RX.ck1, RX.ck4, RX.ck5, RX.ab4, OK.ok2, PS.ps1, R3.lc3, R3.ck6, R3.ck7, R4.ck8, R4.ck10, R4.rx7, R5.un1, R5.lc4],
+     [RX.ck1, RX.ck4, RX.ck5, RX.ab4, OK.ok2, PS.ps1, R3.lc3, R3.ck6, R3.ck7, R4.ck8, R4.ck10, R4.rx7, R5.un1, R5.lc4, R6.und1],
      'single-letter scan pattern has width 1 between word boundaries and letters only, accepted '
      'patterns are literal, the suppression test is beg <= position < end with the right '
      'strictness, offset and length come from one match (CK1); the equation-punctuation pattern '
